@@ -748,7 +748,15 @@ impl CaseState {
                 if let Some(parent) = p.parent() {
                     fs::create_dir_all(parent).map_err(|_| BadCase)?;
                 }
+                // an overwrite keeps the file's modification time (a time-preserving copy, two writes within one
+                // timestamp tick): what a dev-mode render shows must not depend on the timestamp moving
+                let keep = fs::metadata(&p).and_then(|m| m.modified()).ok();
                 fs::write(&p, content).map_err(|_| BadCase)?;
+                if let Some(t) = keep {
+                    if let Ok(f) = fs::OpenOptions::new().write(true).open(&p) {
+                        let _ = f.set_modified(t);
+                    }
+                }
             }
             Op::Fd(path) => {
                 let p = self.scratch_dir().map_err(|_| BadCase)?.join(path);
